@@ -417,6 +417,9 @@ func newCqlServerConnection(
 		outgoing:     make(chan *response, maxInFlight),
 		waitGroup:    &sync.WaitGroup{},
 		onClose:      onClose,
+		payloadAccumulator: &payloadAccumulator{
+			frameCodec: frame.NewRawCodec(), // without compression
+		},
 	}
 	for i := range handlers {
 		connection.handlerCtx[i] = requestHandlerContext{}
